@@ -1,6 +1,6 @@
 SPECIFICATION Spec
 CONSTANTS
-  Keys = {1, 2, 3}
+  Keys = {1, 2}
   Peers = {1, 2}
   Local = 0
   MaxRecords = 2
@@ -10,7 +10,7 @@ CONSTANTS
   PTtl = 1
   K = 1
   Filter = FALSE
-  MaxTime = 3
+  MaxTime = 2
   ServeExpired = FALSE
   StoreFiltered = FALSE
   MergeMax = FALSE
